@@ -513,6 +513,41 @@ def clause11(P, res):
         res.violated(rid, "lock-futures", f"expected the three lock futures, found {n}")
 
 
+def clause12(P, res):
+    import mir
+    rid = "C10-12"
+    res.rule(rid, "a woken writer keeps the gate up: in HybridRwLock::wake_waiters the node obtained from first_writer() is neither unlinked nor followed by fix_flags on "
+                  "the path that wakes it — WRITER_PENDING must stay raised while the woken writer re-contends (it unlinks itself when it wins). Handing a writer its node "
+                  "back at wake time opens the lock to every reader that arrives before the writer runs again, and a steady reader stream starves it without bound")
+    bs = [b for b in sync_bodies(P) if b.name == "wake_waiters" and "rwlock" in b.id]
+    if not bs:
+        res.unclassified(rid, "wake_waiters", "HybridRwLock::wake_waiters not found", where="rules/c10.py")
+        return
+    for b in bs:
+        fw = [e for e in b.calls() if e.method == "first_writer"]
+        if not fw:
+            res.unclassified(rid, b.id, "wake_waiters no longer looks up the first queued writer: re-read the wake policy", where=f"{b.file}:{b.line}")
+            continue
+        bad = []
+        for f in fw:
+            after = b.pos_reach_set(f.pos)
+            for e in b.calls():
+                if e.pos not in after:
+                    continue
+                if e.method == "unlink" and len(e.args) > 1 and f in mir.operand_sources(b, e.args[1])[0]:
+                    bad.append(e)
+                elif e.method == "fix_flags":
+                    # fix_flags on the writer path (before the function returns from that branch)
+                    takes = [t for t in b.calls() if t.method == "take_and_mark_woken" and len(t.args) > 1 and f in mir.operand_sources(b, t.args[1])[0]]
+                    if any(e.pos in b.pos_reach_set(t.pos) for t in takes):
+                        bad.append(e)
+        if bad:
+            res.violated(rid, b.id, f"the first queued writer is woken and {bad[0].method} is called on its path ({bad[0].loc}): the writer gate drops while the writer is "
+                         "still re-contending, readers are admitted past it", where=bad[0].loc)
+        else:
+            res.holds(rid, b.id, "the woken writer stays linked; flags are recomputed only on the reader path", where=fw[0].loc)
+
+
 def run(P, ctx):
     res = Result("C10")
     res.extra["explanation"] = "Acquisition/guard, release/wake, queue-and-recheck, cancellation and type-level shapes of HybridMutex and HybridRwLock."
@@ -529,4 +564,5 @@ def run(P, ctx):
     clause9(P, res)
     clause10(P, res)
     clause11(P, res)
+    clause12(P, res)
     return res
